@@ -29,7 +29,7 @@ Next ==
      \/ Do("Next", -1, -1, -1, OpNext(m))
 Spec == Init /\ [][Next]_vars
 \* the join/leave counters grow forever: they stay out of the view (the relation they are used in is inductive)
-View == <<m, h.track, h.occAtNext>>
+View == <<m, h.track, h.occAtNext, h.posAtNext>>
 CmpView == m
 NoCrash == ~m.crashed
 StepHolds == [][FailedSeat(h, h', m, m', out', Props) \subseteq Ignore]_vars
